@@ -107,6 +107,10 @@ partial def parseAcc (dense : Bool) (j : Json) : Except String (Option Acc) := d
     match (← parseAcc dense (← field j "sub")) with
     | some s => return some (.feats s)
     | none => return none
+  | "clone" =>
+    match (← parseAcc dense (← field j "sub")) with
+    | some s => return some (.clone s)
+    | none => return none
   | "skip" => return none
   | a => throw s!"access {a}"
 
